@@ -117,6 +117,36 @@ PASSES = ['', 'TREZOR', 'p\u00e4ssw\u00f6rd', 'pa\u0308sswo\u0308rd', '\uff34\uf
 #  ligature / Angstrom sign / digraph, emoji (4-byte UTF-8), precomposed + circled digit)
 
 
+WS = [' ', '\t', '\n', '\r\n', '\u00a0', '\u3000', '\u2003', '\u200b']
+# (space, tab, newline, CR LF, no-break space, ideographic space, em space, zero width space)
+SFORMS = ('nfc', 'ideo', 'nfc+ideo', 'nbsp', 'fullw')     # texts whose NFKD form is the sentence
+
+
+def pass_family(rng, nrandom):
+    """Passphrases as users type them: (kind, text).  BIP39: the salt is "mnemonic" + UTF-8(NFKD(passphrase)) -
+    nothing trimmed, folded or collapsed."""
+    fam = []
+    c = 'hunter2'
+    for i, ws in enumerate(WS):
+        fam += [('ws-lead%d' % i, ws + c), ('ws-trail%d' % i, c + ws), ('ws-both%d' % i, ws + c + ws),
+                ('ws-inner%d' % i, 'hun' + ws + 'ter2'), ('ws-only%d' % i, ws), ('ws-only-two%d' % i, ws + ws)]
+    fam += [('ws-trail-two', c + '  '), ('ws-inner-two', 'hun  ter2'), ('ws-lead-mixed', ' \t\n' + c),
+            ('ws-trail-mixed', c + ' \u3000\n'), ('ws-unicode-lead', '\u3000\u79d8\u5bc6'),
+            ('ws-after-nfkd-lead', '\u00a8abc'), ('ws-after-nfkd-trail', 'abc\u00b4'), ('ws-after-nfkd-only', '\u2017')]
+    fam += [('case', x) for x in ('Password', 'password', 'PASSWORD', 'pASSWORD', '\u01c5', '\u00df', 'SS', '\u0130i', '\u03a3\u03c3\u03c2')]
+    fam += [('combining', x) for x in ('e\u0301', '\u00e9', '\u1e9b\u0323', 'q\u0307\u0323', 'q\u0323\u0307', '\ud55c\uae00',
+                                       '\u1112\u1161\u11ab', 'a\u0308\u0301\u0328', '\u0301lone')]
+    fam += [('compat', x) for x in ('\u3300', '\u00bd', '\ufb03', 'x\u00b2', '\u2167', '\u2126', '\uff76\uff9e', '\u2460', '\u2122',
+                                    '\u1d2e', '\ufdfa', '\u2002a\u2003b')]
+    fam += [('long', 'a' * 129), ('long', 'correct horse battery staple ' * 10), ('long', '\u00e9' * 300),
+            ('long', ''.join(chr(rng.choice([rng.randrange(33, 127), rng.randrange(0xa1, 0x250), rng.randrange(0x3041, 0x3097)]))
+                             for _ in range(1000)))]
+    alphabet = 'abcXYZ019 \t\n\u00a0\u3000\u00e9e\u0301\uff21\u212b\ufb01\u01c5\U0001f600\u00a8-_'
+    for _ in range(nrandom):
+        fam.append(('random', ''.join(rng.choice(alphabet) for _ in range(rng.randrange(1, 13)))))
+    return fam
+
+
 def build_ops(tables, rng, thorough):
     langs = sorted(tables)
     ops = []
@@ -137,16 +167,17 @@ def build_ops(tables, rng, thorough):
                 if thorough or (b + L // 4) % len(langs) == li:
                     ent = (1 << b).to_bytes(L, 'big')
                     add(op='enc', lang=lang, ent=ent.hex(), cc=False, form='bytes', pat='bit')
-                    add(op='dec', lang=lang, ent=ent.hex(), pos=0, w=0, sform='nfkd', pat='bit')
+                    if thorough or b % 2 == L // 4 % 2:
+                        add(op='dec', lang=lang, ent=ent.hex(), pos=0, w=0, sform='nfkd', pat='bit')
     for lang in (langs if thorough else [l for l in langs if l in ('english', 'japanese')] or langs[:1]):
         for ent in HEXLIKE:
             for cc in (False, True):
                 add(op='enc', lang=lang, ent=ent.hex(), cc=cc, form='bytes', pat='hexlike')
-    # sentence forms accepted by the decoder (NFC, ideographic space)
-    for lang in langs:
-        for L in (16, 32):
+    # sentence texts that ARE the sentence after NFKD (NFC, ideographic / no-break space between the words, full-width letters)
+    for li, lang in enumerate(langs):
+        for L in ((16, 32) if thorough else (LENS[li % len(LENS)],)):
             ent = bytes(rng.randrange(256) for _ in range(L))
-            for sform in ('nfc', 'ideo', 'nfc+ideo'):
+            for sform in SFORMS:
                 add(op='dec', lang=lang, ent=ent.hex(), pos=0, w=0, sform=sform, pat='form')
 
     # ---- single-word substitutions
@@ -166,13 +197,16 @@ def build_ops(tables, rng, thorough):
         r1 = langs[rng.randrange(len(langs))]
         L1 = LENS[rng.randrange(len(LENS))]
         # last word of a 12-word sentence (127 other words carry a matching checksum) + one random position elsewhere
-        full += [(e, 16, 12), (r1, L1, rng.randrange(1, nw[L1]))]
+        full += [(e, 16, 12)]
+        p1 = rng.randrange(1, nw[L1])
+        for w in rng.sample(range(2048), 512):
+            add(op='dec', lang=r1, ent=base[(r1, L1)], pos=p1, w=w, sform='nfkd', pat='subst-all')
     for lang, L, pos in sorted(set(full)):
         for w in range(2048):
             add(op='dec', lang=lang, ent=base[(lang, L)], pos=pos, w=w, sform='nfkd', pat='subst-all')   # w = original: the unchanged sentence
     for lang in langs:
         for L in LENS:
-            for _ in range(120 if thorough else 20):
+            for _ in range(120 if thorough else 12):
                 add(op='dec', lang=lang, ent=base[(lang, L)], pos=rng.randrange(1, nw[L] + 1), w=rng.randrange(2048),
                     sform='nfkd', pat='subst-rand')
             for pos in range(1, nw[L] + 1):
@@ -193,15 +227,22 @@ def build_ops(tables, rng, thorough):
             add(op='dec', lang=lang, ent=(b'\xff' * L).hex(), pos=rng.randrange(1, nw[L]), alien='xyzzy', sform='nfkd', pat='alien0')
 
     # ---- seeds
+    fam = pass_family(rng, 60 if thorough else 24)
+    e = 'english' if 'english' in tables else langs[0]
     for li, lang in enumerate(langs):
-        for L in (LENS if thorough else (16, 32)):
+        for L in (LENS if thorough else (LENS[(li + 2) % len(LENS)],)):
             ent = base[(lang, L)]
             for api in ('to_seed', 'from_passphrase'):
                 for pi, pw in enumerate(PASSES):
                     add(op='seed', api=api, lang=lang, ent=ent, pos=0, w=0, sform='nfkd', praw=pw, pat='pass%d' % pi)
                 add(op='seed', api=api, lang=lang, ent=ent, pos=0, w=0, sform='nfkd', praw=None, pat='nopass')
-                for sform in ('nfc', 'ideo', 'nfc+ideo'):
-                    for pi in ((0, 1, 2, 6) if thorough else (0, 1 + (li + L) % (len(PASSES) - 1))):
+                # the whole passphrase family on the English list (and on all lists: thorough), a rotating part elsewhere
+                part = fam if (lang == e and L == (LENS if thorough else (LENS[(li + 2) % len(LENS)],))[0]) or thorough \
+                    else [fam[i] for i in range(li % 7, len(fam), 7)]
+                for kind, pw in part:
+                    add(op='seed', api=api, lang=lang, ent=ent, pos=0, w=0, sform='nfkd', praw=pw, pat=kind)
+                for si, sform in enumerate(SFORMS):
+                    for pi in ((0, 1, 2, 6) if thorough else ((li + si) % len(PASSES),)):
                         add(op='seed', api=api, lang=lang, ent=ent, pos=0, w=0, sform=sform, praw=PASSES[pi], pat='form-' + sform)
                 # invalid sentences must not yield a seed (validation is the default)
                 add(op='seed', api=api, lang=lang, ent=ent, pos=nw[L], w=-1, sform='nfkd', praw='TREZOR', pat='badcs')
@@ -214,37 +255,47 @@ def build_ops(tables, rng, thorough):
     return ops
 
 
-def sentence_text(op, idx, tables):
-    """The sentence an op feeds to the library: words of the spec's indices, one word substituted, in a text form."""
+def sentence_words(op, idx, tables):
+    """Words and list positions of the sentence an op feeds to the library: the words at the spec's indices (first and
+    last word of a list as pinned in the spec, the others from the bundled file), one word substituted."""
     t = tables[op['lang']]
     idx = list(idx)
-    words = [t['words'][i] for i in idx]
     pos = op.get('pos', 0)
-    if pos:
-        if 'alien' in op:
-            a = op['alien']
-            if a == '#cap':
-                a = words[pos - 1][:1].upper() + words[pos - 1][1:]
-                if a == words[pos - 1]:
-                    a = words[pos - 1] + 'x'
-            elif a == '#cut':
-                a = words[pos - 1][:-1] or 'x'
-            words[pos - 1] = a
-        else:
-            w = op['w'] if op['w'] >= 0 else idx[pos - 1] ^ (-op['w'])
-            words[pos - 1] = t['words'][w]
+    if pos and 'alien' not in op:
+        idx[pos - 1] = op['w'] if op['w'] >= 0 else idx[pos - 1] ^ (-op['w'])
+    words = [t['sw'][i] for i in idx]
+    if pos and 'alien' in op:
+        a = op['alien']
+        if a == '#cap':
+            a = words[pos - 1][:1].upper() + words[pos - 1][1:]
+            if a == words[pos - 1]:
+                a = words[pos - 1] + 'x'
+        elif a == '#cut':
+            a = words[pos - 1][:-1] or 'x'
+        words[pos - 1] = a
+        idx[pos - 1] = t['sindex'].get(ref.nfkd(a), -1)
+    return words, idx
+
+
+def sentence_text(op, idx, tables):
+    """... as text, in the form the op asks for (input generator)."""
+    words, idx = sentence_words(op, idx, tables)
     text = ' '.join(words)
     sf = op.get('sform', 'nfkd')
     if 'nfc' in sf:
         text = ref.nfc(text)
     if 'ideo' in sf:
         text = text.replace(' ', IDEO)
-    return text
+    if 'nbsp' in sf:
+        text = text.replace(' ', '\u00a0')
+    if 'fullw' in sf:
+        text = ''.join(chr(ord(ch) + 0xfee0) if 'a' <= ch <= 'z' else ch for ch in text)
+    return text, idx
 
 
 def tokens(text, t):
     """Abstraction of a sentence text: list positions of the space separated words of its NFKD form (-1 = not in list)."""
-    return [t['index'].get(w, -1) for w in ref.nfkd(text).split(' ')]
+    return [t['sindex'].get(w, -1) for w in ref.nfkd(text).split(' ')]
 
 
 def lenclass(n):
@@ -263,7 +314,11 @@ def run(replay=None):
                '(call, language, entropy length, entropy pattern or substitution kind / passphrase kind, flag); entropy '
                'patterns: zero, ones, 1/2/5 leading zero bytes, 1..44 leading zero bits, every single bit, alternating, '
                'n-1/n/n+1, random, bytes spelling hex; substitutions: all 2047 words at chosen positions, random, bit flips, '
-               'words outside the list; passphrases: none, ASCII, NFC, NFKD, full-width, ideographic space, kana, ligatures, emoji')
+               'words outside the list; sentence texts: NFKD, NFC, ideographic / no-break space, full-width letters; passphrases: none, ASCII, '
+               'NFC, NFKD, full-width, kana, ligatures, emoji, leading / trailing / inner / only white space of 8 kinds (also white '
+               'space that only NFKD produces), upper / lower case, combining sequences in both orders, Hangul, compatibility '
+               'characters, long (129..1000 characters), random; word lists: 2048 letter-only NFKD words, pinned first / last word, '
+               'order, digest')
     ck.assumptions = ['TLC evaluates Bip39.tla correctly', 'SHA-256, HMAC-SHA512, PBKDF2 of hashlib (OpenSSL) and NFKD/NFC of '
                       'unicodedata are the primitives (ref.py, self-tested against published vectors)',
                       'word lists other than English are pinned by digest to the bundled files of the pinned snapshot '
@@ -283,14 +338,25 @@ def run(replay=None):
 
     # ---------------- (G) stage 1: expected indices of every entropy
     ents = sorted({o['ent'] for o in ops if 'ent' in o})
-    a1 = [{'k': 'gen_vectors'}] + [{'k': 'gen_enc', 'ent': list(bytes.fromhex(e)), 'h': [ref.sha256(bytes.fromhex(e))[0]]}
+    a1 = [{'k': 'gen_vectors'}, {'k': 'gen_facts'}] + [{'k': 'gen_enc', 'ent': list(bytes.fromhex(e)), 'h': [ref.sha256(bytes.fromhex(e))[0]]}
                                    for e in ents]
     tm = time.time()
-    g1 = common.tlc_eval('Bip39Eval', a1, procs=4 if len(a1) < 4000 else common.NCPU)
+    g1 = common.tlc_eval('Bip39Eval', a1, procs=2 if len(a1) < 4000 else common.NCPU)
     timing['gen1'] = round(time.time() - tm, 1)
     vectors = g1[0]['exp']
-    exp_idx = {e: g['exp']['idx'] for e, g in zip(ents, g1[1:])}
-    unhex = {e: bytes(g['exp']['unhex']) for e, g in zip(ents, g1[1:])}
+    facts = g1[1]['exp']
+    exp_idx = {e: g['exp']['idx'] for e, g in zip(ents, g1[2:])}
+    unhex = {e: bytes(g['exp']['unhex']) for e, g in zip(ents, g1[2:])}
+    # the words the specification speaks of: the bundled list, its first and last word as pinned in the spec
+    for lang, t in tables.items():
+        sw = (t['words'] + ['\u2047missing'] * 2048)[:2048]
+        if lang in facts:
+            sw[0] = ''.join(map(chr, facts[lang]['first']))
+            sw[2047] = ''.join(map(chr, facts[lang]['last']))
+        t['sw'] = sw
+        t['sindex'] = dict(t['index'])
+        for i in (2047, 0):
+            t['sindex'][sw[i]] = i
 
     # ---------------- drive bitcoinlib
     calls = []
@@ -299,7 +365,7 @@ def run(replay=None):
         if o['op'] == 'enc':
             c.update(ent=o['ent'], cc=o['cc'], form=o['form'])
         elif o['op'] in ('dec', 'seed'):
-            o['text'] = sentence_text(o, exp_idx[o['ent']], tables)
+            o['text'], o['idx'] = sentence_text(o, exp_idx[o['ent']], tables)
             c['text'] = o['text']
             if o['op'] == 'seed':
                 c.update(api=o['api'], praw=o['praw'])
@@ -318,9 +384,7 @@ def run(replay=None):
     # ---------------- (G) stage 2: payload of every sentence fed / returned, KDF terms, deviation predictions
     for o, r in zip(ops, results):
         t = tables[o['lang']]
-        if o['op'] in ('dec', 'seed'):
-            o['idx'] = tokens(o['text'], t)
-        elif o['op'] == 'generated':
+        if o['op'] == 'generated':
             o['idx'] = tokens(r['text'], t) if not r['refused'] else []
     idxs = sorted({tuple(o['idx']) for o in ops if 'idx' in o})
     en = tables.get('english')
@@ -333,7 +397,7 @@ def run(replay=None):
            for o in seed_ops] +
           [{'k': 'gen_enc', 'ent': list(u), 'h': [ref.sha256(u)[0]]} for u in uh])
     tm = time.time()
-    g2 = common.tlc_eval('Bip39Eval', a2, procs=8 if len(a2) < 20000 else common.NCPU)
+    g2 = common.tlc_eval('Bip39Eval', a2, procs=6 if len(a2) < 20000 else common.NCPU)
     timing['gen2'] = round(time.time() - tm, 1)
     payload = {i: bytes(g['exp']['ent']) for i, g in zip(idxs, g2[:len(idxs)])}
     hd = {i: [ref.sha256(p)[0]] if p else [0] for i, p in payload.items()}
@@ -361,16 +425,16 @@ def run(replay=None):
     recs = []      # (record, class, description, op)
 
     def words_cps(t, idx):
-        return [cps(t['words'][i]) for i in idx]
+        return [cps(t['sw'][i]) for i in idx]
 
     if not replay:
         for lang, t in sorted(tables.items()):
-            recs.append(({'k': 'table', 'lang': lang, 'digest': t['digest'], 'n': len(t['words']),
-                          'distinct': len(t['index']), 'nfkd': t['nfkd']}, ('table', lang), 'word list %s' % lang, None))
+            recs.append(({'k': 'table', 'lang': lang, 'digest': t['digest'], 'words': [cps(w) for w in t['words']],
+                          'nfkd': [cps(ref.nfkd(w)) for w in t['words']]}, ('table', lang), 'word list %s' % lang, None))
         for i, v in enumerate(vectors):
             e = bytes(v['ent'])
             recs.append(({'k': 'vector', 'i': i + 1, 'h': [ref.sha256(e)[0]],
-                          'widx': [en['index'].get(w, -1) for w in v['words']] if en else []},
+                          'widx': [en['sindex'].get(w, -1) for w in v['words']] if en else []},
                          ('vector', i), 'Trezor vector %d (%s)' % (i + 1, e.hex()), None))
         recs.append(({'k': 'selftest', 'seed': list(selftest_seed)}, ('selftest',), 'term evaluator self test', None))
     for o, r in zip(ops, results):
@@ -399,7 +463,7 @@ def run(replay=None):
                 lang, o['text'][:200], o['ent'], o.get('pos', 0), ('refused ' + r['err']) if r['refused'] else r['got'])
         elif o['op'] == 'seed':
             i = tuple(o['idx'])
-            nonenglish = bool(en) and any(w not in en['index'] for w in ref.nfkd(o['text']).split(' '))
+            nonenglish = bool(en) and any(w not in en['sindex'] for w in ref.nfkd(o['text']).split(' '))
             rec = {'k': 'seed', 'api': o['api'], 'lang': lang, 'idx': o['idx'], 'hd': hd[i], 'refused': r['refused'],
                    'got': list(bytes.fromhex(r['got'])) if not r['refused'] else [], 'exp': list(o['exp']),
                    'devexp': list(o['devexp']), 'I': list(o['I']), 'devI': list(o['devI']),
@@ -419,7 +483,7 @@ def run(replay=None):
 
     timing['kdf'] = round(time.time() - tm - timing['gen2'], 1)
     tm = time.time()
-    verdicts = common.tlc_eval('Bip39Eval', [r for r, _, _, _ in recs])
+    verdicts = common.tlc_eval('Bip39Eval', [r for r, _, _, _ in recs], procs=10 if len(recs) < 30000 else common.NCPU)
     timing['judge'] = round(time.time() - tm, 1)
     ck.notes['timing_s'] = timing
     if os.environ.get('VERIF_DEBUG'):
